@@ -1,4 +1,5 @@
-from . import props_bf
+from . import props_bf, props_tape
 
 CHECKS = {}
 CHECKS.update(props_bf.CHECKS)
+CHECKS.update(props_tape.CHECKS)
